@@ -128,7 +128,7 @@ def check_triple(res, ns, nswin, overlap, WG, fs=30000.0):
             res.exception(key + ":exception" if key != "splicing:overlap0" else key, e, f"{T} firstlast_splicing")
     # the same laws when the generators of ONE object are consumed side by side (zip) or helpers are called inside the loop:
     # which window is first / last is a fact about the window, not about a counter shared by the generators
-    if overlap % 2 == 0 and 2 * overlap <= nswin and (ns * 7 + nswin * 3 + overlap) % 5 == 0:
+    if overlap % 2 == 0 and 2 * overlap <= nswin and (ns * 7 + nswin * 3 + overlap) % 5 == 0 and n <= 3000:      # (tscale inside the loop: quadratic in the window count)
         try:
             once = np.zeros(ns, int)
             tot = np.zeros(ns)
